@@ -13,6 +13,7 @@ EXPLANATION = ("provenance, byte-order and path-shape rules: the UDP reply's des
                "that can be constructed under the handler chain maps to an rcode (no panicking arm), upstream failures to SERVFAIL")
 ASSUMPTIONS = ["NOT decided (most of C07): behaviour under concurrency, delay, reordering, duplication and loss of upstream replies; "
                "bounded-time SERVFAIL; id multiplexing under collisions — no static argument in reach bounds those"]
+EXPLANATION += "; also: one task per datagram/connection; readiness cleared only on would-block; the shared timeout is stored clamped; no lock re-acquired while held; S4 (a panic of the TCP upstream task stalls its connection's queries); C03's id rules are evaluated here too"
 EXTRA_CONFIGS = ["dns"]
 
 
